@@ -260,6 +260,9 @@ func parseAffine(s string) Affine {
 var sysParamFields = map[string]bool{"LePrime": true, "Lh": true, "Lm": true, "Ln": true, "Lstatzk": true, "Le": true, "LeCommit": true,
 	"LmCommit": true, "LRA": true, "LsCommit": true, "Lv": true, "LvCommit": true, "LvPrime": true, "LvPrimeCommit": true}
 
+// phiEnv: path-specific resolution of phi nodes (used by path-splitting shape rules).
+var phiEnv = map[*ssa.Phi]ssa.Value{}
+
 // affineOf evaluates an integer-typed SSA value to an affine form over symbols.
 func affineOf(v ssa.Value) (Affine, bool) { return affineD(v, 0) }
 
@@ -277,6 +280,11 @@ func affineD(v ssa.Value, d int) (Affine, bool) {
 	case *ssa.ChangeType:
 		return affineD(x.X, d+1)
 	case *ssa.BinOp:
+		if ph, ok := x.X.(*ssa.Phi); ok && x.Op == token.ADD && ph.Comment == "rangeindex" && isInduction(ph) {
+			if c, ok := constInt(x.Y); ok && c == 1 {
+				return affSym("#i"), true
+			}
+		}
 		a, ok1 := affineD(x.X, d+1)
 		b, ok2 := affineD(x.Y, d+1)
 		if !ok1 || !ok2 {
@@ -324,11 +332,21 @@ func affineD(v ssa.Value, d int) (Affine, bool) {
 			return affSym("bitlen(" + desc(x.Call.Args[0]) + ")"), true
 		}
 		if isCallTo(x, "builtin:len") {
+			if ms, ok := x.Call.Args[0].(*ssa.MakeSlice); ok {
+				return affineD(ms.Len, d+1)
+			}
 			return affSym("len(" + desc(x.Call.Args[0]) + ")"), true
 		}
 		return affSym(desc(x)), true
 	case *ssa.Parameter:
 		return affSym(desc(x)), true
+	case *ssa.Phi:
+		if e, ok := phiEnv[x]; ok {
+			return affineD(e, d+1)
+		}
+		if isInduction(x) {
+			return affSym("#i"), true
+		}
 	case *ssa.Extract, *ssa.Lookup, *ssa.Index:
 		return affSym(desc(v)), true
 	}
